@@ -9,9 +9,9 @@ from harness import common as C
 
 META = {
     "id": "C12",
-    "technique": "Coq proof over every well-formed statement shape of target() (induction over the shape checker; all fault vectors, all argument/environment combinations) + translator that re-reads the statement sequence of target() from the current source (coq/Gen/TargetShape.v, obligation C12_current_shape_ok) + exhaustive effect-trace correspondence of the extracted model with the real target()/pio.py under a recording subprocess/tempfile/pathlib + property oracle on the recorded effects and the files on disk",
-    "level_text": "Theorems C12_* (coq/Props/C12.v) are proved for every statement list accepted by the decidable predicate shape_ok and every environment (validation verdict, upload flag, PlatformIO present/absent, all 2^8 fault vectors); C12_current_shape_ok re-checks on every run that the statement sequence the translator reads from src/Reduino/__init__.py is such a list. The per-step effect semantics (ensure_pio, write_project, compile_upload) is a hand model compared event by event with the real code on all scenarios of the run.",
-    "level_note": "Trusted: Coq kernel, translator harness/gen/target.py (ast of target(), fail-closed), extraction (ExtrOcamlBasic), OCaml driver, the recording doubles of subprocess.run/tempfile.mkdtemp/pathlib.Path in harness/impl/c12_impl.py. PlatformIO itself is not modelled (a present pio answers 0 unless a build/upload fault is injected; an absent one raises FileNotFoundError). The theorems are about the model; the correspondence bounds its distance from the code.",
+    "technique": "Coq proof over every well-formed statement shape of target() (induction over the shape checker; all fault vectors, all ways the PlatformIO probe can fail, all argument/environment combinations) + concrete layer tying the written platformio.ini to C13's verified render/configparser round trip + translator that re-reads the statement sequence of target(), the except clauses of ensure_pio() and the subprocess calls of compile_upload() from the current source (coq/Gen/TargetShape.v, obligation C12_current_shape_ok) + exhaustive effect-trace correspondence of the extracted model with the real target()/pio.py under a recording subprocess/tempfile/pathlib + property oracle on the recorded effects and the files on disk",
+    "level_text": "Theorems C12_* (coq/Props/C12.v) are proved for every statement list accepted by the decidable predicate shape_ok and every environment (validation verdict, upload flag, PlatformIO usable or failing its probe in any of five ways, all 2^10 fault vectors including a pio that can no longer be started at the build / upload); C12_current_shape_ok re-checks on every run that the statement sequence the translator reads from src/Reduino/__init__.py is such a list. The per-step effect semantics (ensure_pio, write_project, compile_upload) is a hand model compared event by event with the real code on all scenarios of the run.",
+    "level_note": "Trusted: Coq kernel, translator harness/gen/target.py (ast of target(), fail-closed), extraction (ExtrOcamlBasic), OCaml driver, the recording doubles of subprocess.run/tempfile.mkdtemp/pathlib.Path in harness/impl/c12_impl.py. PlatformIO itself is not modelled (a usable pio answers 0 unless a fault is injected; an unusable one raises FileNotFoundError / PermissionError / OSError(ENOEXEC) / NotADirectoryError or exits non-zero). The platform default text encoding is a scenario parameter emulated by the recorder. The theorems are about the model; the correspondence bounds its distance from the code.",
     "design_ref": "DESIGN.md section 4 C12",
 }
 
@@ -55,7 +55,8 @@ XKINDS = ["absent", "noexec", "badformat", "notdir"]
 # blanks inside, INI delimiters / comment characters / brackets / %, empty, non-ASCII
 PORTS_MORE = ["/dev/cu.usbmodem14201", "COM12", "/dev/tty.usbserial A9", "rfc2217://192.168.0.7:4000", "socket://host:23",
               "/dev/serial/by-id/usb-Arduino__www.arduino.cc__0043-if00", "a=b:c", "x;y #z", "[COM3]", "100%", "${sysenv.PORT}",
-              "", "\u30dd\u30fc\u30c8/\u00fc", "COM3 ; trailing", "-p"]
+              "\u30dd\u30fc\u30c8/\u00fc", "COM3 ; trailing", "-p"]
+UNICODE_PORT = "\u30dd\u30fc\u30c8/\u00fc"
 LOCALES = ["cp1252", "ascii", "utf-16", "latin-1"]
 PAIRS = [("atmelavr", "uno"), ("atmelmegaavr", "nano_every"),
          ("espressif32", "uno"), ("atmelavr", "not_a_board"), ("atmelavr", "nano_every"), ("atmelmegaavr", "uno")]
@@ -137,6 +138,11 @@ def extra_scenarios(thorough, plats, rng):
                     for upload in (True, False):
                         for state in (True, "exit") if thorough else (True,):
                             add("tool-start", script=script, platform=pl, board=b, upload=upload, pio=state, faults=extra + ts)
+    # ... and each way a start can fail, at the build alone and at the upload alone
+    for xk in XKINDS:
+        for ts in (["buildexec"], ["uploadexec"], ["buildexec", "uploadexec"]):
+            for upload in (True, False):
+                add("tool-start", faults=list(ts), xkind=xk, upload=upload, script="servo_i2c")
     # (C) every (platform, board) pair of the registry (identifiers with '-', upper case, digits, '_')
     allpairs = [(pl, b) for pl in sorted(plats) for b in sorted(plats[pl])]
     scripts3 = ["servo_lcd", "led", "all_libs"]
@@ -152,6 +158,13 @@ def extra_scenarios(thorough, plats, rng):
             for other in sorted(plats):
                 if other != pl:
                     add("registry-mismatch", platform=other, board=b, upload=bool(i % 2), pio=bool(i % 3))
+    # near misses of registered names: the sanitised twin of a board that is not its own environment name, case and blank variants
+    near = [("atmelavr", "".join(c if (c.isalnum() or c == "_") else "_" for c in b)) for _, b in allpairs
+            if not all(c.isalnum() or c == "_" for c in b)]
+    near += [("atmelavr", "UNO"), ("atmelavr", " uno"), ("atmelavr", "uno "), ("atmelavr ", "uno"), ("Atmelavr", "uno"),
+             ("atmelavr", "uno\n"), ("atmelmegaavr", "Nano_Every"), ("atmelavr", "digispark tiny"), ("atmelavr", "digispark--tiny")]
+    for i, (pl, b) in enumerate(near):
+        add("near-miss", platform=pl, board=b, upload=bool(i % 2), pio=bool(i % 3), script=scripts3[i % 3])
     # (D) ports
     odd = [p for p in allpairs if not all(c.isalnum() or c == "_" for c in p[1])]
     for i, port in enumerate(PORTS_MORE):
@@ -162,7 +175,7 @@ def extra_scenarios(thorough, plats, rng):
         for script in ("unicode_out", "unicode", "led"):
             for upload in (False, True):
                 add("locale", locale=loc, script=script, upload=upload, pio=True)
-                add("locale", locale=loc, script=script, upload=upload, pio=True, port=PORTS_MORE[12],
+                add("locale", locale=loc, script=script, upload=upload, pio=True, port=UNICODE_PORT,
                     platform="atmelavr", board=(odd[0][1] if odd else "uno"))
     # (F) seeded random mixtures of all of the above
     states = [True, True, True, False, "noexec", "badformat", "notdir", "exit"]
@@ -463,8 +476,9 @@ def run(ctx: C.Ctx):
                 "Further streams: (discovery) every way the probe `pio --version` can fail - not on PATH, PermissionError, OSError(ENOEXEC), NotADirectoryError, "
                 "non-zero exit - x upload x scripts x pairs x single faults; (tool-start) pio usable at the probe but not startable / failing at the build or the "
                 "upload (subsets of buildexec, uploadexec, build, upload; exception class rotating) x file faults; (registry) EVERY (platform, board) pair of the "
-                "registry, the boards that are not their own environment name also with upload; (registry-mismatch) registered boards under the other platforms; "
-                "(ports) 15 port strings inside C13's guard (blanks, INI delimiters, comment characters, brackets, %, ${}, empty, non-ASCII); (locale) platform "
+                "registry, the boards that are not their own environment name also with upload; (registry-mismatch) registered boards under the other platforms; (near-miss) sanitised twins of the boards that are not their own "
+                "environment name, case / blank / line-break variants of registered names; "
+                "(ports) 14 port strings inside C13's guard (blanks, INI delimiters, comment characters, brackets, %, ${}, non-ASCII); (locale) platform "
                 "default encodings cp1252 / ascii / utf-16 / latin-1 for calls that do not name one, with firmware text outside ASCII; (random) seeded mixtures; "
                 "(twin) the same transpile-only call with a usable PlatformIO",
         "samples": [cases[0], cases[len(cases) // 3], cases[-1]],
@@ -515,7 +529,7 @@ def replay(data):
     print("implementation:", json.dumps({"events": rr[0]["events"], "result": rr[0]["result"], "disk": rr[0]["disk"], "runs": rr[0]["runs"]}, indent=1)[:3000])
     try:
         exe = C.build_model("C12")
-        print("model:", decode_model(C.run_model(exe, [model_case(sc)])[0]))
+        print("model:", decode_model(C.run_model(exe, [model_case(sc, expected)])[0]))
     except Exception as e:  # noqa
         print("model unavailable:", e)
     fails = oracle(sc, rr[0], is_valid_pair(reg["platforms"], sc["platform"], sc["board"]), expected, rr[1])
